@@ -150,9 +150,52 @@ func (ex *exec) ptrID(p interface{}) uintptr {
 	if id, ok := ex.ptrIDs[p]; ok {
 		return id
 	}
-	id := uintptr(0xc000000000 + 64*len(ex.ptrIDs) + 64)
+	id := uintptr(0xc000000000 + 65536*len(ex.ptrIDs) + 65536)
 	ex.ptrIDs[p] = id
 	return id
+}
+
+type structPtr struct {
+	p    *value
+	offs []int64
+}
+
+// ptrIDOf gives pointers into one struct variable addresses that differ by the field offsets (code that
+// identifies a field by pointer arithmetic, mapper.Info.ColumnByPtr).
+func (ex *exec) ptrIDOf(x *value, t types.Type) uintptr {
+	if id, ok := ex.ptrIDs[x]; ok {
+		return id
+	}
+	if pt, ok := t.Underlying().(*types.Pointer); ok {
+		if u, ok := pt.Elem().Underlying().(*types.Struct); ok {
+			if st, ok := (*x).(structure); ok && len(st) > 0 {
+				offs := ex.sizes.Offsetsof(structFields(u))
+				for i := range st {
+					if id, ok := ex.ptrIDs[&st[i]]; ok {
+						base := id - uintptr(offs[i])
+						ex.ptrIDs[x] = base
+						ex.structPtrs = append(ex.structPtrs, structPtr{x, offs})
+						return base
+					}
+				}
+				base := ex.ptrID(x)
+				ex.structPtrs = append(ex.structPtrs, structPtr{x, offs})
+				return base
+			}
+		}
+	}
+	for _, sp := range ex.structPtrs {
+		if st, ok := (*sp.p).(structure); ok {
+			for i := range st {
+				if &st[i] == x {
+					id := ex.ptrIDs[sp.p] + uintptr(sp.offs[i])
+					ex.ptrIDs[x] = id
+					return id
+				}
+			}
+		}
+	}
+	return ex.ptrID(x)
 }
 
 type rmapIter struct {
@@ -536,7 +579,7 @@ func init() {
 			if x == nil {
 				return uintptr(0)
 			}
-			return ex.ptrID(x)
+			return ex.ptrIDOf(x, r.t)
 		case []value:
 			if cap(x) == 0 {
 				if x == nil {
